@@ -56,6 +56,39 @@ def cpp_write_return_rules(ck, rule, facts):
         ok = w is not None and "output" in w[0] and w[1] == ("Write",)
         ck.expect(ok, rule, "cpp::gen_c_to_cpp_for_return_type/write-returns-output#%d" % n, "Write -> std::move(output)",
                   "a return conversion unwraps `.ok` for out-types but yields `%s` for SuccessType::Write (arm %s): the string Rust wrote is dropped for this return shape" % ((w or ("<no arm>",))[0][:40], (w or (None, None))[1]), C.loc(f, mt.get("ln")))
+    # per return shape (Write success): the expression the function yields -- early returns taken under that shape included -- tests `is_ok` exactly for the
+    # fallible and nullable shapes (a shortcut that hands `output` back for Option<()> makes every call look like Some)
+    import exprval
+    body_ = C.fn_body(f)
+    items_ = (body_.get("s") or []) + ([body_["e"]] if body_.get("e") is not None else [])
+    top = next((C.strip(it) for it in items_ if C.strip(it).get("k") == "match" and (C.strip(it).get("sadt") or "").endswith("methods::ReturnType")), None)
+    for shape in ("Infallible", "Fallible", "Nullable"):
+        env = {"result_ty": shape, "()is_write": True}
+        text = None
+        for it in items_:
+            i_ = C.strip_keep_macro(it)
+            if isinstance(i_, dict) and i_.get("k") == "if" and C.diverges(i_.get("t")):
+                try:
+                    taken = bool(exprval.bev(i_["c"], env))
+                except exprval.Unknown:
+                    taken = None
+                if taken:
+                    text = " ".join(C.str_lits(i_["t"]))
+                    break
+        if text is None and top is not None:
+            for arm in top["arms"]:
+                pv = arm["pat"]
+                vs_ = [q.get("v") for q in ([pv] if pv.get("k") != "or" else pv["alts"])]
+                subs_ = [q2.get("v") for q in ([pv] if pv.get("k") != "or" else pv["alts"]) for q2 in (q.get("sub") or []) if isinstance(q2, dict)]
+                if shape in vs_ and (not any(subs_) or "Write" in subs_ or all(x_ is None for x_ in subs_)):
+                    text = " ".join(C.str_lits(arm["b"]))
+                    if "Write" in subs_ or not any(subs_):
+                        break
+        if text is None:
+            continue
+        want_flag = shape != "Infallible"
+        ck.expect(("is_ok" in text) == want_flag and "output" in text, rule, "cpp::gen_c_to_cpp_for_return_type/%s(Write)-tests-flag" % shape, text[:60],
+                  "for a %s return with a written string the conversion is `%s`: %s" % (shape, text[:90], "the is_ok flag is not consulted, a None / Err result still yields the string" if want_flag else "unexpected flag test"), C.loc(f))
     direct = any(x.get("k") == "lit" and "std::move(output)" in str(x.get("v", "")) for x in nodes)
     ck.expect(n >= 1 and direct, rule, "cpp::gen_c_to_cpp_for_return_type/write-conversions", "%d conversion matches" % n, "no value-conversion match over SuccessType found (anchor lost)", C.loc(f))
 
@@ -272,6 +305,42 @@ def run(ck, facts):
     ck.expect(ok_sp, "R6", "span/default-size", str(dflt), "the bundled C++17 span's default size is `%s`: a default-constructed span must have size() == 0 like std::span "
               "(with Extent = dynamic_extent = SIZE_MAX it claims SIZE_MAX elements at nullptr)" % dflt, W)
     cpp_write_return_rules(ck, "R4", facts)
+    # operator overloads: the C++ operator a special method is published as is the one its attribute names (sibling tables: SpecialMethod::operator_str in core, used by the
+    # nanobind templates, and Cpp2Formatter::fmt_method_name) -- `a *= b` must run the method marked mul_assign
+    CANON = {"Add": "+", "Sub": "-", "Mul": "*", "Div": "/", "AddAssign": "+=", "SubAssign": "-=", "MulAssign": "*=", "DivAssign": "/=", "Indexer": "[]"}
+
+    def variant_lits(fn_):
+        out = {}
+        for n_ in C.walk(C.fn_body(fn_)):
+            if n_.get("k") != "match":
+                continue
+            for a_ in n_["arms"]:
+                vs = []
+
+                def pv_(q):
+                    if isinstance(q, dict):
+                        if q.get("k") == "variant" and (q.get("adt") or "").endswith("SpecialMethod"):
+                            vs.append(q.get("v"))
+                        for z in (q.get("sub") or []) if isinstance(q.get("sub"), list) else ([q["sub"]] if isinstance(q.get("sub"), dict) else []):
+                            pv_(z)
+                        for z in q.get("alts") or []:
+                            pv_(z)
+                pv_(a_["pat"])
+                lits = [l_ for l_ in C.str_lits(a_["b"])]
+                if len(vs) >= 1 and len(lits) == 1:
+                    for v_ in vs:
+                        out[v_] = lits[0]
+        return out
+    t_core = variant_lits(facts.core.fn("hir::attrs::SpecialMethod::operator_str"))
+    t_cpp = variant_lits(tool.fn("cpp::formatter::Cpp2Formatter::fmt_method_name"))
+    nop = 0
+    for v_, sym_ in sorted(CANON.items()):
+        if v_ in t_cpp:
+            nop += 1
+            ck.expect(t_cpp[v_] == "operator" + sym_ and t_core.get(v_, sym_) == sym_, "R6", "cpp::fmt_method_name/operator/" + v_, t_cpp[v_],
+                      "SpecialMethod::%s is published as C++ `%s` (core operator_str: `%s`), expected `operator%s`: the overload runs a different Rust method than its attribute names" % (v_, t_cpp[v_], t_core.get(v_), sym_), C.loc(tool.fn("cpp::formatter::Cpp2Formatter::fmt_method_name")))
+    if nop < 8:
+        ck.bad("R6", "cpp::fmt_method_name/operator-floor", "only %d operator arms found in fmt_method_name (9 counted)" % nop)
     # enum wrapper
     import c11
     sub = C.SubCheck(ck, "R6", "", ["R1"], key_re=r"^cpp/")
